@@ -25,6 +25,9 @@ type Stage struct {
 	Timeout  time.Duration
 	MaxKeep  int    // keep at most this many traces (reservoir-sampled with the seed); 0 = all
 	LastIs   string // if set, keep only behaviours whose last action has this name
+	// Layouts, if set: every kept behaviour is replayed once under EACH of these page layouts
+	// (instead of under one of the standard concretisations chosen per behaviour)
+	Layouts []sim.Layout
 }
 
 // Collect runs the stage; a model-level violation is an infrastructure failure (R2: the model is
@@ -81,6 +84,20 @@ func Collect(rep *core.Report, st Stage, seed int64) []Trace {
 // ReplayAll replays every trace under one configuration chosen per trace from cfgs (round-robin
 // offset by the seed) and records the monitor failures that belong to `prop`.
 func ReplayAll(rep *core.Report, prop string, traces []Trace, cfgs []Config, seed int64) {
+	replayAll(rep, prop, traces, cfgs, seed, false)
+}
+
+func replayAll(rep *core.Report, prop string, traces []Trace, cfgs []Config, seed int64, every bool) {
+	if every && len(cfgs) > 1 {
+		// one job per (behaviour, configuration)
+		var all []Trace
+		for _, tr := range traces {
+			for range cfgs {
+				all = append(all, tr)
+			}
+		}
+		traces, seed = all, 0
+	}
 	type job struct {
 		i  int
 		tr Trace
@@ -197,6 +214,14 @@ func Main(rep *core.Report, args *core.Args, prop string, stages []Stage) {
 		}()
 		traces := Collect(rep, st, args.Seed)
 		close(stop)
+		if len(st.Layouts) > 0 {
+			var lc []Config
+			for i, l := range st.Layouts {
+				lc = append(lc, Config{Layout: l, Pager: sim.PagerOpts{Sector: 512, BigEndian: i%2 == 1}})
+			}
+			replayAll(rep, prop, traces, lc, args.Seed, true)
+			continue
+		}
 		ReplayAll(rep, prop, traces, cfgs, args.Seed)
 	}
 	if Post != nil {
